@@ -107,7 +107,9 @@ def gen_webvtt(rng, tag, text=None):
         feats.add('shift')
     if strict:
         feats.add('strict-timing')
-    nl = rng.choice(['\n', '\n', '\r\n'])
+    nl = rng.choice(['\n', '\n', '\r\n', '\r'])
+    if nl == '\r':
+        feats.add('lone-cr')
     doc = 'WEBVTT' + rng.choice(['', '', ' - some title', '\tX']) + nl
     if rng.random() < 0.2:
         doc += 'Kind: captions' + nl
@@ -247,7 +249,7 @@ def gen_sami(rng, tag, text=None, nlang=None, same_sync_twice=0.1, inline_lang=0
         feats.add('inline-lang-attribute')
     up = rng.random() < 0.6
     T = (lambda s: s.upper()) if up else (lambda s: s.lower())
-    css = 'P { font-family: Arial; }\n'
+    css = 'P { font-family: Arial; }\n.fmt { font-style: italic; }\n'
     for cls, lang in classes:
         if cls is not None:
             css += f'.{cls} {{ Name: {lang}; lang: {lang}; SAMI_Type: CC; }}\n'
@@ -285,6 +287,10 @@ def gen_sami(rng, tag, text=None, nlang=None, same_sync_twice=0.1, inline_lang=0
                     f'{rng.choice(["lang", "Lang"])}={rng.choice(["", chr(34)])}{lang}'
                 if pattr.count('"') == 1:
                     pattr += '"'
+                if cls is None and rng.random() < 0.5:
+                    # a formatting-only class (no lang: rule) in front of the inline lang attribute
+                    pattr = 'class=fmt ' + pattr
+                    feats.add('class-before-inline-lang')
                 doc += f'<{T("p")} {pattr}>{body}' + (f'</{T("p")}>' if close_p else '')
                 wrote = True
         doc += (f'</{T("sync")}>' if close_p or rng.random() < 0.5 else '') + '\n'
@@ -315,7 +321,7 @@ def gen_sami(rng, tag, text=None, nlang=None, same_sync_twice=0.1, inline_lang=0
 
 # ------------------------------------------------------------------------------- MicroDVD
 
-FPS = ['23.976', '24', '25', '29.97', '30', '50']
+FPS = ['23.976', '24', '25', '29.97', '30', '50', '23.976024', '29.97003', '59.94006', '24.0005', '12.5']
 
 
 def gen_microdvd(rng, tag, text=None):
